@@ -949,8 +949,12 @@ impl Connection {
 
         self.app_limited = buf.is_empty() && !congestion_blocked;
 
-        // Send MTU probe if necessary
-        if buf.is_empty() && self.state.is_established() {
+        // Send MTU probe if necessary, unless the anti-amplification limit leaves no budget for the
+        // (unvalidated) path
+        if buf.is_empty()
+            && self.state.is_established()
+            && !self.path.anti_amplification_blocked(1)
+        {
             let space_id = SpaceId::Data;
             let probe_size = self
                 .path
